@@ -22,7 +22,9 @@ class Regex(Expression):
     def __str__(self):
         pattern = self.pattern
         if isinstance(pattern, bytes):
-            pattern = pattern.decode('ascii')
+            # A pattern may hold any byte (say, an escaped case-insensitive
+            # literal).
+            pattern = pattern.decode('ascii', 'backslashreplace')
 
         pattern = pattern.replace('\\', '\\\\')
         flag = 'i' if self.ignore_case else ''
